@@ -1,4 +1,5 @@
 import BarterModel.Lemmas.Drawdown
+import BarterModel.Lemmas.KernelsAgree.Drawdown
 /-!
 # C18 — Reported drawdowns are the peak-to-trough declines of the value curve
 
@@ -195,6 +196,43 @@ theorem instrument_feeds_pnl_curve (ps : List (Int × Rat)) :
     (InstrSheet.run InstrSheet.init ps).2 = (Sheet.run Sheet.default (pnlCurve 0 ps)).2 := by
   rw [pnlCurve_run]
   exact ⟨rfl, rfl⟩
+
+/-! ## Tie to the source by translation -/
+
+/-- **Tie to the source by translation.** The step functions of the three generators the model
+mirrors (`DrawdownGenerator::{init, generate, update}` in `drawdown/mod.rs`,
+`MaxDrawdownGenerator::{update, generate}` in `max.rs`, `MeanDrawdownGenerator::{update, generate}` in
+`mean.rs`, with `Drawdown::duration` and the `Decimal` / `i64` instances of
+`welford_online::calculate_mean`) are not only hand-written: on every run `tools/rust2lean_sm.py`
+regenerates `BarterModel.Generated.Machines.*` (state-passing functions) from the current source,
+and for ALL generator states and inputs the model's functions are the generated ones read through
+the record bijections of `Lemmas/KernelsAgree/Drawdown.lean` (`toGen/ofGen`, `toTimed`, `toDd/ofDd`,
+`toMaxGen/ofMaxGen`, `toMeanGen/ofMeanGen`). A change of one of these functions in the source makes
+this theorem fail to build. -/
+theorem kernels_agree_with_source :
+    (∀ p : Pt, Gen.init p
+        = KernelsAgree.Drawdown.ofGen (Generated.Machines.DrawdownGenerator.init (KernelsAgree.Drawdown.toTimed p)))
+    ∧ (∀ g : Gen, ((KernelsAgree.Drawdown.toGen g).generate).1 = KernelsAgree.Drawdown.toGen g
+        ∧ g.generate = ((KernelsAgree.Drawdown.toGen g).generate).2.map KernelsAgree.Drawdown.ofDd)
+    ∧ (∀ (g : Gen) (p : Pt), g.update p
+        = (KernelsAgree.Drawdown.ofGen ((KernelsAgree.Drawdown.toGen g).update (KernelsAgree.Drawdown.toTimed p)).1,
+            ((KernelsAgree.Drawdown.toGen g).update (KernelsAgree.Drawdown.toTimed p)).2.map
+              KernelsAgree.Drawdown.ofDd))
+    ∧ (∀ (m : MaxGen) (d : Drawdown), m.update d
+        = KernelsAgree.Drawdown.ofMaxGen ((KernelsAgree.Drawdown.toMaxGen m).update (KernelsAgree.Drawdown.toDd d)))
+    ∧ (∀ m : MaxGen, m.generate
+        = ((KernelsAgree.Drawdown.toMaxGen m).generate).map fun x => KernelsAgree.Drawdown.ofDd x.f0)
+    ∧ (∀ (m : MeanGen) (d : Drawdown), m.update d
+        = KernelsAgree.Drawdown.ofMeanGen ((KernelsAgree.Drawdown.toMeanGen m).update (KernelsAgree.Drawdown.toDd d)))
+    ∧ (∀ m : MeanGen, m.generate
+        = ((KernelsAgree.Drawdown.toMeanGen m).generate).map KernelsAgree.Drawdown.ofMean) :=
+  KernelsAgree.Drawdown.drawdown_kernels_agree
+
+/-- non-vacuity of the tie: the generated generator, initialised at (100, t=0), fed 90 at t=1 and
+then 110 at t=2, returns the ended drawdown 1/10 over [0, 2]. -/
+example :
+    (((Generated.Machines.DrawdownGenerator.init ⟨100, 0⟩).update ⟨90, 1⟩).1.update ⟨110, 2⟩).2
+      = some ⟨1/10, 0, 2⟩ := by decide +kernel
 
 /-! ## Non-vacuity and examined boundary -/
 
